@@ -20,8 +20,9 @@ After every operation the harness also checks that nothing handed out or handed 
 training matrices / slices / labels of every existing design (bit-identical to snapshots), the
 internal state of every design (transform instance dictionaries incl. the Polynomial memo
 dictionaries, contrast matrices, levels), earlier results, the caller's DataFrame (values, dtypes,
-index, column order), the caller's namespace; and that `design_matrices` / `model_description`
-called twice give identical output.
+index, column order), the caller's namespace; that `design_matrices` / `model_description`
+called twice give identical output; and every design and every result is printed (str, repr) right
+after it is produced — an observation that has to succeed and must not change any of the above.
 
 `Spec.C07.holds` (every output equals its fresh-state output and nothing observed changed) is
 evaluated by the Lean driver on the decoded canonical outputs — the predicate the theorems of
@@ -77,6 +78,9 @@ FORMULAS = [
     ("y ~ bs(x, df=4) + h", False),
     ("y ~ C(f, levels=lv_f) + center(x):h", True),
     ("y ~ standardize(z) + center(x) + (0 + h | g)", False),
+    # `w` has no spread in one of the frames a design is built from (frame 1): whatever a transform
+    # remembers about it is fixed by that build, not by the frames evaluated afterwards
+    ("y ~ scale(w) + center(w):h + f", False),
 ]
 POOLS = {
     # name: (formula indices, frames to build from, frames to evaluate, config values)
@@ -103,6 +107,7 @@ def make_frames(seed):
             "z": [rng.randrange(-8, 9) / 4 for _ in range(n)],
             "k": [1 + i % 3 for i in range(n)],
             "f": cat(f_levels), "g": cat(g_levels), "h": cat(["p", "q"]),
+            "w": [2.5] * n if n == 4 else [rng.randrange(-8, 9) / 2 for _ in range(n)],
             # a column no formula uses, with a missing value (rows must not be dropped for it)
             "unused": [float("nan") if i == n - 1 else float(rng.randrange(0, 100))
                        for i in range(n)]}, index=index)
@@ -406,6 +411,18 @@ class Proc:
     def flag(self, pos, name, ok):
         self.flags.append((pos, name, bool(ok)))
 
+    def show(self, pos, *objs):
+        """printing is an observation: it has to succeed and (checked by `after`) change nothing"""
+        ok = True
+        for o in objs:
+            if o is None:
+                continue
+            try:
+                str(o), repr(o)
+            except Exception:  # noqa
+                ok = False
+        self.flag(pos, "printing a design / a result succeeds", ok)
+
     def step(self, pos, op):
         f = self.formulae
         kind = op[0]
@@ -449,6 +466,8 @@ class Proc:
                 self.designs.append((dm, op[1], op[2],
                                      training_snapshot(dm) if self.check else None,
                                      internal_snapshot(dm) if self.check else None))
+                if self.check:
+                    self.show(pos, dm.response, dm.common, dm.group)
             rel = (None, op[2])
         else:
             if op[1] >= len(self.designs):
@@ -470,6 +489,7 @@ class Proc:
                         if self.check:
                             self.results.append((new, np.array(new.design_matrix, copy=True),
                                                  _slices(new)))
+                            self.show(pos, new, obj)
                     except Exception as e:  # noqa
                         out = {"t": "raised", "cls": type(e).__name__}
                 rel = (op[1], op[2])
